@@ -450,6 +450,7 @@ func fixCenterZoom(meta [][2]string, rows []mbRow) [][2]string {
 func convertOnce(dedup bool, meta [][2]string, rows []mbRow) (readArchive, error, error) {
 	in := scratchFile(".mbtiles")
 	out := scratchFile(".pmtiles")
+	staleOutput(out)
 	defer os.Remove(in)
 	defer os.Remove(out)
 	if err := writeMbtiles(in, meta, rows); err != nil {
